@@ -15,6 +15,7 @@ Oracles (independent of the model, on the real objects):
              patterns = the matching indices in id order, labels = format of the index
   hist     : all_variable_labels()[v-1] is the owning group's label of v, or the default name
 """
+import collections
 import itertools
 
 from harness import common
@@ -44,7 +45,7 @@ NOTES = [
     "unnamed variable labelled None) were fixed in /repo (9191303, 321a67a); their replays stay in the corpus",
 ]
 
-OFFSETS = [0, 1, 7, 100]
+OFFSETS = [0, 1, 7, 100, 255, 256, 257, 1000, 70000, 2 ** 32 + 5, 2 ** 64]
 KINDS = ["variable", "block", "combinations", "combinations_with_replacement", "permutations", "words",
          "bipartite", "graph", "digraph", "mapping", "sparse_mapping", "binary_mapping"]
 KINDCODE = {k: i for i, k in enumerate(KINDS)}
@@ -631,14 +632,43 @@ def uncovered(F):
     return [v for v in range(1, F.number_of_variables() + 1) if v not in owned]
 
 
+ITER_KINDS = {
+    "list": lambda c: [list(x) for x in c],
+    "tuple": lambda c: tuple(tuple(x) for x in c),
+    "gen": lambda c: (list(x) for x in c),
+    "iter": lambda c: iter([list(x) for x in c]),
+    "map": lambda c: map(list, c),
+    "lgen": lambda c: [(l for l in x) for x in c],
+    "chain": lambda c: itertools.chain([list(x) for x in c[:1]], (list(x) for x in c[1:])),
+    "deque": lambda c: collections.deque(list(x) for x in c),
+    "gengen": lambda c: ((l for l in x) for x in c),
+}
+
+
+def initial_formula(init, upto=None):
+    """the formula built by the constructor from the clauses of `init` (given as the iterable kind it names)"""
+    if not init:
+        return CNF()
+    cl = init["clauses"] if upto is None else init["clauses"][:upto]
+    return CNF(ITER_KINDS[init["kind"]](cl))
+
+
 def build_hist(info, prop="C11"):
     ops, dfmt = info["ops"], info.get("dfmt", "x{}")
+    init = info.get("init")
     case = None
     state = {}
 
     def impl():
-        F = CNF()
         parts = []
+        # a formula constructed from clauses c1..cn is the empty formula after add_clause(c1) .. add_clause(cn):
+        # the model is sent those operations, the code is observed on every prefix
+        for i in range(1, len(init["clauses"]) if init else 0):
+            Fi = initial_formula(init, i)
+            parts.append("{}:{}:-".format(Fi.number_of_variables(), max_mentioned(Fi)))
+        F = initial_formula(init)
+        if init and init["clauses"]:
+            parts.append("{}:{}:-".format(F.number_of_variables(), max_mentioned(F)))
         gap_single = False
         unnamed = False
         zero_kept = False
@@ -670,7 +700,7 @@ def build_hist(info, prop="C11"):
         return ok(" ; ".join(parts))
 
     def oracle_c11():
-        F = CNF()
+        F = initial_formula(init)
         for op in ops:
             apply_op(F, op)
         try:
@@ -711,8 +741,15 @@ def build_hist(info, prop="C11"):
 
     def oracle_c10():
         """freshness, observed by wrapping add_clause / _add_variable_group of this one formula"""
-        F = CNF()
+        F = initial_formula(init)
         mentioned = set()
+        if init:
+            want = [list(c) for c in init["clauses"]]
+            if [list(c) for c in F.clauses()] != want:
+                return {"constructor_given": want, "as": init["kind"], "stores": [list(c) for c in F.clauses()]}
+            mentioned.update(abs(l) for c in want for l in c)
+            if max(mentioned | {0}) > F.number_of_variables():
+                return {"constructor_given": want, "as": init["kind"], "declares": F.number_of_variables()}
         bad = []
         precondition_broken = []
         orig_add = F.add_clause
@@ -752,9 +789,10 @@ def build_hist(info, prop="C11"):
         return None
 
     enc = []
-    for op in ops:
+    allops = [{"op": "clause", "lits": list(c), "check": True} for c in (init["clauses"] if init else [])] + list(ops)
+    for op in allops:
         enc += enc_op(op)
-    r = req("vg_hist", common.enc_str(dfmt), len(ops), enc)
+    r = req("vg_hist", common.enc_str(dfmt), len(allops), enc)
     case = Case("hist", r, impl, oracle_c11 if prop == "C11" else oracle_c10, cls="hist",
                 nontrivial=len(ops) > 1, info=info)
     return case
@@ -942,7 +980,16 @@ def gen_hist(rng, clean):
             ops.append({"op": "update", "n": rng.choice([-1, 0, 1, 2, 5, 9, 20, 40])})
             dirty = True
     dfmt = rng.choice(["x{}", "x{}", "x{}", "v_{{{}}}", "y{0}", "{}{}", "w"])
-    return {"ops": ops, "dfmt": dfmt}
+    if rng.random() < .08:
+        # identifiers beyond the small-integer cache of CPython (seeded change C11-6)
+        ops.insert(0, {"op": "update", "n": rng.choice([255, 256, 257, 300])})
+    info = {"ops": ops, "dfmt": dfmt}
+    if rng.random() < .25:
+        # the formula starts from clauses handed to the constructor, as one of several kinds of iterable
+        cl = [[rng.choice([1, -1]) * rng.choice([1, 2, 3, 5, 8, 13]) for _ in range(rng.choice([0, 1, 2, 3]))]
+              for _ in range(rng.randint(1, 4))]
+        info["init"] = {"kind": rng.choice(sorted(ITER_KINDS)), "clauses": cl}
+    return info
 
 
 CORPUS_GROUPS = [
